@@ -175,7 +175,7 @@ func superProfile() chain.Profile {
 	p.Name = "super"
 	p.Nodes = []string{"a01", "a02", "a03"}
 	p.Gateways = []string{"a01", "a02", "a03"}
-	p.Weights = map[string]int{"Blocks": 14, "Delegate": 26, "Undelegate": 18, "ResetSuper": 10, "AddVstorage": 8, "RemoveVstorage": 8,
+	p.Weights = map[string]int{"Blocks": 14, "Delegate": 26, "Undelegate": 16, "Redelegate": 8, "ResetSuper": 10, "AddVstorage": 8, "RemoveVstorage": 8,
 		"StoreNew": 6, "Complete": 8, "Claim": 2}
 	p.Caps = []int64{1000000, 2000000, 3000000}
 	p.Sizes = []int64{1000}
